@@ -155,4 +155,22 @@ theorem louvainEmbFit_entry (nRow nCol : Nat) (a : Mat α) (ln lr lc : List Nat)
       rw [← this] at hc ⊢
       exact louvainProject_entry nRow nCol a _ i c hi hc
 
+/-- the column embedding of a rectangular input: the closed form for some labelling of the rows (the re-indexed
+    secondary labels) -/
+theorem louvainEmbFit_col (nRow nCol : Nat) (a : Mat α) (ln lr lc : List Nat) (which : Isolated)
+    {out : LouvainEmbOut α} (h : louvainEmbFit nRow nCol a ln lr lc which = .ok out) (hne : (nRow == nCol) = false) :
+    ∃ labRow : List Int, ∃ ec, out.embeddingCol = some ec ∧
+      ∀ j c, j < nCol → c < membershipCols labRow →
+        mget ec j c = Spec.louvainEntry nRow (mkMat nCol nRow fun j i => mget a i j) labRow j c := by
+  unfold louvainEmbFit at h
+  simp only [hne, Bool.false_eq_true, if_false, reindexLabels, bind, Except.bind, pure, Except.pure] at h
+  split at h
+  · cases h
+  · rename_i v _
+    have := Except.ok.inj h
+    rw [← this]
+    refine ⟨v.2.getD [], _, rfl, ?_⟩
+    intro j c hj hc
+    exact louvainProject_entry nCol nRow _ _ j c hj hc
+
 end SkNet.Embedding
